@@ -3,6 +3,7 @@ package c13
 
 import (
 	"fmt"
+	"math"
 	"testing"
 
 	"gopkg.in/typ.v4/slices"
@@ -63,7 +64,10 @@ func Run(c Case) pbt.Outcome {
 	checkPieces := func(name string, pieces [][]int) string {
 		want := 0
 		if n > 0 {
-			want = (n + size - 1) / size
+			want = n / size // not (n+size-1)/size: that overflows for sizes near MaxInt
+			if n%size != 0 {
+				want++
+			}
 		}
 		if len(pieces) != want {
 			return fmt.Sprintf("%s(n=%d,size=%d): %d pieces, want ceil(n/size)=%d: %v", name, n, size, len(pieces), want, pieces)
@@ -171,7 +175,7 @@ func Run(c Case) pbt.Outcome {
 }
 
 var specEnum = pbt.Register(&pbt.Spec[Case]{
-	Property: "C13", Name: "C13.enum", Rule: "exhaustive grid n in 0..40 x size in 1..45 (thorough: n in 0..120 x size in 1..125); " + rule,
+	Property: "C13", Name: "C13.enum", Rule: "exhaustive grid n in 0..40 x size in 1..45 (thorough: n in 0..120 x size in 1..125) plus n in 0..12 x sizes next to MaxInt, 2^62, 2^32, 2^31-1; " + rule,
 	Enum: func(shard, shards int, tier string, yield func(Case) bool) {
 		maxN, maxS := 40, 45
 		if tier == "thorough" {
@@ -184,6 +188,14 @@ var specEnum = pbt.Register(&pbt.Spec[Case]{
 				}
 			}
 		}
+		// sizes near the top of the int range (size arithmetic such as n+size-1 must not overflow)
+		for n := 0; n <= 12; n++ {
+			for _, size := range []int{math.MaxInt, math.MaxInt - 1, math.MaxInt - n, math.MaxInt - n + 1, math.MaxInt/2 + 1, 1 << 62, 1 << 32, 1<<31 - 1} {
+				if size >= 1 && !yield(Case{N: n, Size: size, Spare: n % 2}) {
+					return
+				}
+			}
+		}
 	},
 	Run: Run, Exhaustive: true,
 })
@@ -192,7 +204,11 @@ var specRand = pbt.Register(&pbt.Spec[Case]{
 	Property: "C13", Name: "C13.rand", Rule: "rapid: n in 0..300, size in 1..n+5, spare 0..4; " + rule,
 	Gen: func(t *rapid.T) Case {
 		n := rapid.IntRange(0, 300).Draw(t, "n")
-		return Case{N: n, Size: rapid.IntRange(1, n+5).Draw(t, "size"), Spare: rapid.IntRange(0, 4).Draw(t, "spare")}
+		size := rapid.IntRange(1, n+5).Draw(t, "size")
+		if rapid.IntRange(0, 19).Draw(t, "huge") == 0 {
+			size = math.MaxInt - rapid.IntRange(0, n+2).Draw(t, "below-max")
+		}
+		return Case{N: n, Size: size, Spare: rapid.IntRange(0, 4).Draw(t, "spare")}
 	},
 	Run: Run, Quick: 10000, Thorough: 100000,
 })
